@@ -782,7 +782,20 @@ J_C10(i) ==
       IF e.ev \in {"puback", "pubcomp"} /\ e.err = "" /\ ~SessionEndsIn(i, e.c) /\ Qos2Open(e.c, e.pid)
             /\ (\E r \in InflightOf(pre, e.c) : r.pid = e.pid /\ r.t = PUBREC)
             /\ ~(\E r \in InflightOf(post, e.c) : r.pid = e.pid /\ r.t = PUBREC)
-      THEN Cmp("C10.client-ack-clobbers-inbound-marker", e.c, "", e.pid) ELSE <<>>
+      THEN Cmp("C10.client-ack-clobbers-inbound-marker", e.c, "", e.pid) ELSE <<>>,
+      \* the broker's own choice of an outbound identifier never replaces the marker of an inbound QoS 2 exchange the
+      \* client has open under the same number (the two directions have separate identifier spaces) ...
+      ForAll(AllClientIds(e), LAMBDA d :
+         ForAll({r \in InflightOf(pre, d) : r.t = PUBREC /\ Qos2Open(d, r.pid) /\ ~SessionEndsIn(i, d)
+                    /\ ~(e.c = d /\ e.ev \in {"pubrel", "puback", "pubcomp", "publish"} /\ (e.pid = r.pid \/ (e.ev = "publish" /\ e.a.pid = r.pid)))
+                    /\ (\E r2 \in InflightOf(post, d) : r2.pid = r.pid /\ r2.t = PUBLISH)},
+                LAMBDA r : Cmp("C10.outbound-id-clobbers-inbound-marker", d, "", r.pid))),
+      \* ... and the client's PUBREL, which completes ITS publish, never removes an outbound message of the broker
+      IF e.ev = "pubrel" /\ e.err = "" /\ ~SessionEndsIn(i, e.c) THEN
+         ForAll({r \in InflightOf(pre, e.c) : r.t = PUBLISH /\ r.pid = e.pid /\ r.m # "" /\ e.pid \notin Get(g.clob, e.c, {})
+                    /\ ~(\E r2 \in InflightOf(post, e.c) : r2.pid = r.pid /\ r2.m = r.m)},
+                LAMBDA r : Cmp("C10.client-pubrel-deletes-outbound-record", e.c, r.m, r.pid))
+      ELSE <<>>
     >>)
 
 (* ================================================================== C11 receive maximum *)
